@@ -511,11 +511,75 @@ fn refusal_cases(o: &mut Out, rng: &mut Rng) {
     }
 }
 
+/// per-frame control values set through a StreamWriter's own setters between the frames it carries (frame 0 is written with
+/// write_image_data: a stream writer that starts on the IDAT frame of an animation is a separate known finding of C12)
+fn stream_writer_frame_control_cases(o: &mut Out, rng: &mut Rng, thorough: bool) {
+    use std::io::Write;
+    for k in 0..(if thorough { 400 } else { 60 }) {
+        let (w, h) = (rng.range(1, 6) as u32, rng.range(1, 5) as u32);
+        let n = rng.range(2, 4) as usize;
+        let fcs: Vec<Fc> = (0..n).map(|_| Fc { w, h, x: 0, y: 0, dn: rng.next() as u16, dd: rng.next() as u16, dop: rng.below(3) as u8, bop: rng.below(2) as u8 }).collect();
+        o.mark(&format!("stream-writer frame control {}x{} {:?}", w, h, fcs));
+        o.direct_checks += 1;
+        let mut out = vec![];
+        let r = guarded(|| -> Result<(), String> {
+            let mut e = png::Encoder::new(&mut out, w, h);
+            e.set_color(ColorType::Grayscale);
+            e.set_depth(BitDepth::Eight);
+            e.set_animated(n as u32, 0).map_err(|e| format!("{:?}", e))?;
+            e.set_frame_delay(fcs[0].dn, fcs[0].dd).map_err(|e| format!("{:?}", e))?;
+            e.set_blend_op(bop_of(fcs[0].bop)).map_err(|e| format!("{:?}", e))?;
+            e.set_dispose_op(dop_of(fcs[0].dop)).map_err(|e| format!("{:?}", e))?;
+            let mut wr = e.write_header().map_err(|e| format!("{:?}", e))?;
+            let data = vec![7u8; (w * h) as usize];
+            wr.write_image_data(&data).map_err(|e| format!("{:?}", e))?;
+            // the stream writer emits the frame header of its first frame when it is created: that frame's values are set on the Writer
+            wr.set_frame_delay(fcs[1].dn, fcs[1].dd).map_err(|e| format!("{:?}", e))?;
+            wr.set_blend_op(bop_of(fcs[1].bop)).map_err(|e| format!("{:?}", e))?;
+            wr.set_dispose_op(dop_of(fcs[1].dop)).map_err(|e| format!("{:?}", e))?;
+            {
+                let mut sw = wr.stream_writer_with_size(*[16usize, 64, 4096].get(k % 3).unwrap()).map_err(|e| format!("{:?}", e))?;
+                for (j, f) in fcs.iter().enumerate().skip(1) {
+                    // (a later frame's header is emitted by the first write after the previous frame is complete: its values are set just before)
+                    if j >= 2 {
+                        sw.set_frame_delay(f.dn, f.dd).map_err(|e| format!("{:?}", e))?;
+                        sw.set_blend_op(bop_of(f.bop)).map_err(|e| format!("{:?}", e))?;
+                        sw.set_dispose_op(dop_of(f.dop)).map_err(|e| format!("{:?}", e))?;
+                    }
+                    sw.write_all(&data).map_err(|e| format!("{:?}", e))?;
+                }
+                sw.finish().map_err(|e| format!("{:?}", e))?;
+            }
+            wr.finish().map_err(|e| format!("{:?}", e))
+        });
+        let detail = |why: String| vec![("why", jstr(&why)), ("frames", jstr(&format!("{:?}", fcs))), ("file", jstr(&hex(&out)))];
+        match r {
+            Err(p) => { o.violation(viol("encoder-panicked-on-metadata", detail(p))); continue; }
+            Ok(Err(e)) => { o.violation(viol("encoder-refused-representable-metadata", detail(e))); continue; }
+            Ok(Ok(())) => {}
+        }
+        match guarded(|| decode(&out, n)) {
+            Err(p) => o.violation(viol("decoder-panicked-on-encoder-output", detail(p))),
+            Ok(Err(e)) => o.violation(viol("decoder-rejects-encoder-output", detail(e))),
+            Ok(Ok(rb)) => {
+                let got: Vec<Option<Fc>> = rb.fcs.clone();
+                let want: Vec<Option<Fc>> = fcs.iter().cloned().map(Some).collect();
+                o.count("meta.stream-writer-frame-control");
+                o.distinct(&format!("swfc-{}-{}-{}", w, h, n));
+                if got != want {
+                    o.violation(viol("metadata-not-read-back-unchanged: fcTL", detail(format!("read back {:?}", got))));
+                }
+            }
+        }
+    }
+}
+
 pub fn run(a: &Args) {
     let mut o = Out::new(&a.out);
     let mut rng = Rng::new(a.seed);
     let thorough = a.tier == "thorough";
     refusal_cases(&mut o, &mut rng);
+    stream_writer_frame_control_cases(&mut o, &mut rng, thorough);
     // every enum member / boundary value once, alone
     let plain = Meta { color: 2, depth: 8, w: 3, h: 2, phys: None, srgb: None, gamma: None, chrm: None, icc: None, exif: None, actl: None, sep_def: false, plte: None, trns: None,
         texts: vec![], late_texts: vec![], frames: vec![Fc { w: 3, h: 2, x: 0, y: 0, dn: 0, dd: 0, dop: 0, bop: 0 }], via_setters: false };
